@@ -15,7 +15,7 @@ CHECKS["C01"] = dict(
     ],
     anchors=["SymEngine::RealDouble::__hash__", "SymEngine::Integer::__hash__", "SymEngine::Rational::__hash__", "SymEngine::Add::__hash__", "SymEngine::Mul::__hash__",
              "SymEngine::MSymEnginePoly"],
-    bounds="22 expression templates (all number kinds, Symbol, Mul, Add in two construction orders, Pow, Sin, FiniteSet, Interval, Lt, UIntPoly, URatPoly, MIntPoly over {x,y} and constant MIntPoly over a symbolic variable set, ImmutableDenseMatrix); integer slots in [-3,3] (bit-vector mode), rational denominators 1..3 (unnormalised inputs through from_two_ints), doubles: all 2^64 bit patterns; all same-template pairs and all cross-template pairs",
+    bounds="25 expression templates (all number kinds, Interval with an infinite end, x + k and k*x with k of any finite number kind, Symbol, Mul, Add in two construction orders, Pow, Sin, FiniteSet, Interval, Lt, UIntPoly, URatPoly, MIntPoly over {x,y} and constant MIntPoly over a symbolic variable set, ImmutableDenseMatrix); integer slots in [-3,3] (bit-vector mode), rational denominators 1..3 (unnormalised inputs through from_two_ints), doubles: all 2^64 bit patterns; all same-template pairs and all cross-template pairs",
     outside=["expressions with more than 3 operators", "multi-limb integers", "slot values beyond [-3,3]"],
 )
 
@@ -37,6 +37,7 @@ CHECKS["C29"] = dict(
     entries=[
         dict(name="harness_c29_pairs", quick={}, thorough={"nmax": 40}),
         dict(name="harness_c29_subs", quick={}, thorough={"nmax": 40}),
+        dict(name="harness_c29_steps", quick={}, thorough={"nmax": 40}),
     ],
     anchors=["SymEngine::Le(", "SymEngine::Lt(", "SymEngine::Eq(", "SymEngine::Ne(", "SymEngine::Ge(", "SymEngine::Gt("],
     bounds="ordered pairs over {Integer |v|<=6 (40), Rational n/d |n|<=6 (40), d in {1,2,4} (and 3 against exact numbers), RealDouble: every non-NaN bit pattern incl. +-0, +-inf, +-oo}; the numeric relation is computed by an independent exact comparison in the harness",
@@ -160,4 +161,58 @@ CHECKS["C24"] = dict(
     anchors=["SymEngine::det_bareis", "SymEngine::det_berkowitz", "SymEngine::inverse_fraction_free_LU", "SymEngine::inverse_gauss_jordan", "SymEngine::pivoted_LU", "SymEngine::fraction_free_LDU", "SymEngine::reduced_row_echelon_form", "SymEngine::LDL"],
     bounds="quick: 2x2 matrices with 4 symbolic integer entries |a|<=2; thorough: 3x3 with 3 symbolic entries |a|<=2 and 6 entries enumerated from {0,1,-1,2}; determinants (bareis, berkowitz, det) against Leibniz, 4 inverse algorithms (A*B==I both ways), 3 solvers with symbolic right-hand sides, pivoted LU (P A == L U), LU, fraction-free LDU, LDL on symmetric inputs, transpose, sums; rank and rref of 2x3 matrices |a|<=1 (2) against minors",
     outside=["QR and Cholesky (radical entries)", "characteristic polynomial", "Gaussian-rational entries", "sizes above 3x3"],
+)
+
+CHECKS["C10"] = dict(
+    src="C10.cpp", level="model_checking",
+    entries=[
+        dict(name="harness_c10_diff", quick={"depth": 1}, thorough={"depth": 2, "_wall": 1700}),
+        dict(name="harness_c10_chain", quick={}, thorough={}),
+    ],
+    anchors=["SymEngine::DiffVisitor", "SymEngine::Basic::diff"],
+    bounds="all operator trees of depth <= 1 (thorough 2) over leaves {x, y, positive p, numbers 2, -1/2, 3, a symbolic integer in [-3,3]}, unary {neg, integer powers 2,3,-1,-2, rational powers of p (1/2,-1/2,2/3,5/4), sin, cos, tan, exp, log, sinh, cosh, tanh, atan}, binary {+,-,*,/}; derivative with respect to x, y or p compared with forward-mode dual numbers for all real x, y and positive p (elementary functions uninterpreted with Pythagoras/exp axioms); cache on/off; absent symbol; chain rule for an undefined f(g(x))",
+    outside=["points of non-differentiability / singularities (pruned)", "polynomial classes, Derivative-of-Derivative, special functions beyond those listed"],
+    assumptions=["oracle D2 (vlib/veval.h, vlib/vrecipe.h): node meanings over the reals; real-valued abstraction of floating point"],
+)
+
+CHECKS["C11"] = dict(
+    src="C11.cpp", level="model_checking",
+    entries=[dict(name="harness_c11_subs", quick={"depth": 1}, thorough={"depth": 2, "_wall": 1700})],
+    anchors=["SymEngine::SubsVisitor", "SymEngine::XReplaceVisitor", "SymEngine::msubs", "SymEngine::ssubs"],
+    bounds="all operator trees of depth <= 1 (thorough 2) over {x, y, positive p, numbers, a symbolic integer}; replacement of x by a symbolic integer, y, y+1 or 2y^2; value compared for all real y and positive p; cache on/off; absent key; identity map; xreplace/msubs/ssubs agree; simultaneous swap {x:y, y:x}",
+    outside=["keys that are sub-expressions (not symbols)", "Derivative/Subs objects"],
+    assumptions=["oracle D2 (vlib/veval.h, vlib/vrecipe.h)"],
+)
+
+CHECKS["C07"] = dict(
+    src="C07.cpp", level="model_checking",
+    entries=[
+        dict(name="harness_c07_trees", quick={"depth": 1}, thorough={"depth": 2, "_wall": 1700}),
+        dict(name="harness_c07_powers", quick={"B": 40, "cmax": 20}, thorough={"B": 400, "cmax": 100}),
+    ],
+    anchors=["SymEngine::pow(", "SymEngine::Mul::power_num", "SymEngine::Mul::dict_add_term_new", "SymEngine::Rational::powrat", "SymEngine::Integer::pow"],
+    bounds="arithmetic trees of depth <= 1 (2) over {x, y, positive p, numbers 2,-1/2,3,-4, a symbolic integer} with neg, integer powers (2,3,-1,-2,0), rational powers of p, sqrt, + - * /; power rewrites (c p^a q^b)^e with c = n/d (n<=20 (100) symbolic, d<=3), p^a p^b q^a, (p^a)^e, (n/d)^e p^a (perfect-power extraction, n<=40 (400)), p^a/p^b (1/p)^a (pq)^b with exponents from a table of 12 rationals: exact comparison of prime/symbol exponent vectors, valid for all positive p, q",
+    outside=["negative and complex bases under non-integer powers (principal-branch phase)", "floating point numbers inside radicals", "pi, E, I as operands"],
+    assumptions=["oracle D2 with 12th roots of positive quantities (vlib/veval.h)", "oracle D3: exponent vectors over primes and positive symbols (vlib/vmono.h)"],
+)
+
+CHECKS["C12"] = dict(
+    src="C12.cpp", level="model_checking",
+    entries=[dict(name="harness_c12_eval", quick={"depth": 1}, thorough={"depth": 2, "_wall": 1700})],
+    anchors=["SymEngine::eval_double", "SymEngine::eval_double_single_dispatch", "SymEngine::eval_double_visitor_pattern", "SymEngine::evalf"],
+    bounds="operator trees of depth <= 1 (2) over {2, -1/2, 3, 7/3, a symbolic integer in [-3,3]} with neg, integer powers, sin, cos, tan, cot, exp, log, sinh, cosh, tanh, atan, asin, erf and + - * /; the three evaluators and evalf(53 bits) compared with the node meaning over the reals (floating-point operations executed as real arithmetic, libm calls as uninterpreted symbols)",
+    outside=["floating-point rounding error and overflow (not decided by this technique)", "eval_complex_double", "node types beyond those listed"],
+    assumptions=["real abstraction D6 of floating-point code", "oracle D2 (vlib/veval.h)"],
+)
+
+CHECKS["C13"] = dict(
+    src="C13.cpp", level="model_checking",
+    entries=[
+        dict(name="harness_c13_lambda", quick={"depth": 1}, thorough={"depth": 2, "_wall": 1700}),
+        dict(name="harness_c13_logic", quick={}, thorough={}),
+    ],
+    anchors=["SymEngine::LambdaDoubleVisitor<double>::init", "SymEngine::LambdaDoubleVisitor<double>::bvisit", "SymEngine::LambdaRealDoubleVisitor"],
+    bounds="three outputs (e1, e1+e2 sharing a subterm, e1*e1) with e1 a tree of depth <= 1 (2) and e2 of depth <= 1 over {x, y, 2, -1/2, 3} and elementary functions; cse on/off; re-initialisation with swapped inputs and another cse setting; for all real input vectors (x, y); relationals, And/Or, Piecewise, max/min, sign, abs for all real x, y",
+    outside=["rounding error", "Contains, floor/ceiling", "LambdaComplexDoubleVisitor"],
+    assumptions=["real abstraction D6 of floating-point code", "oracle D2 (vlib/vrecipe.h)"],
 )
